@@ -79,7 +79,8 @@ def _rand_scan(rng):
         n = int(rng.integers(1, 6))
         pts = rng.random((n, 2)).round(5).tolist()
         # hostile positions: origin, far corner, just inside the far edge, outside the cell
-        specials = [[0.0, 0.0], [1.0, 1.0], [0.99999, 0.5], [0.5, 0.0], [-0.23, 0.31], [1.4, 1.2], [0.5, 0.5]]
+        specials = [[0.0, 0.0], [1.0, 1.0], [0.99999, 0.5], [0.5, 0.0], [-0.23, 0.31], [1.4, 1.2], [0.5, 0.5],
+                    [2.3, 0.5], [0.25, -1.3]]
         for _ in range(int(rng.integers(0, 3))):
             pts.append(specials[int(rng.integers(0, len(specials)))])
         return {"kind": "custom", "points": pts}
@@ -89,29 +90,37 @@ def _rand_scan(rng):
     if k < 0.92:
         s = (rng.random(2) * 0.5).round(5)
         e = (s + 0.1 + rng.random(2) * 0.5).round(5)
-        return {"kind": "grid", "start": s.tolist(), "end": e.tolist(),
-                "gpts": [int(rng.integers(1, 4)), int(rng.integers(1, 4))], "endpoint": bool(rng.random() < 0.5)}
+        g = [int(rng.integers(1, 4)), int(rng.integers(1, 4))]
+        # a one-point scan with endpoint=True has zero extent and is refused by GridScan itself (not judged here)
+        return {"kind": "grid", "start": s.tolist(), "end": e.tolist(), "gpts": g,
+                "endpoint": bool(rng.random() < 0.5) and g != [1, 1]}
     return {"kind": "grid-default"}
 
 
 def gen(rng, tier):
     mode = "full" if rng.random() < 0.6 else "window"
     energy = float(rng.choice([60e3, 80e3, 100e3, 200e3, 300e3]))
+    lam = _wavelength(energy)
     cell = G.rand_cell_case(rng, max_atoms=4, max_xy=7.0, min_xy=4.0, max_z=5.0, min_z=2.0)
     if mode == "full":
         interp = [1, 1]
         potential = str(rng.choice(["none", "atoms", "atoms", "frozen"]))
-        gpts = G.rand_gpts(rng, 18, 40)
+        ug = G.rand_gpts(rng, 18, 40)
     else:
         interp = [[2, 2], [3, 3], [2, 2], [1, 2], [3, 1], [2, 3]][int(rng.integers(0, 6))]
         potential = str(rng.choice(["none", "none", "periodic"]))
-        # unit (window) grid 10-18 points; the S-matrix grid is the unit grid times the interpolation
+        # unit (window) grid; the S-matrix grid is the unit grid times the interpolation
         ug = G.rand_gpts(rng, 10, 18)
-        gpts = [ug[0] * interp[0], ug[1] * interp[1]]
         cell["cell"][0] = float(rng.uniform(3.0, 4.5))
         cell["cell"][1] = float(rng.uniform(3.0, 4.5))
         cell["positions"] = (np.array(cell["positions"]) % np.array(cell["cell"])).round(6).tolist()
-    cutoff = float(rng.uniform(12.0, 28.0))
+    lx, ly = cell["cell"][0], cell["cell"][1]
+    # the (window) probe must contain several beams, and the aperture must stay inside the anti-aliasing band
+    lower = max(8.0, 2.2e3 * lam / min(lx, ly))
+    cutoff = float(min(36.0, lower * rng.uniform(1.0, 2.2)))
+    dmax = 0.8 * (2.0 / 3.0) * lam / (2.0 * cutoff * 1e-3)
+    ug = [max(int(ug[0]), int(np.ceil(lx / dmax))), max(int(ug[1]), int(np.ceil(ly / dmax)))]
+    gpts = [ug[0] * (interp[0] if mode == "window" else 1), ug[1] * (interp[1] if mode == "window" else 1)]
     ctf_cutoff = cutoff if rng.random() < 0.7 else float(cutoff * rng.uniform(0.6, 0.95))
     r = rng.random()
     if r < 0.3:
@@ -120,7 +129,6 @@ def gen(rng, tier):
         ab = _rand_aberrations(rng, energy, ctf_cutoff)
         ens = None
         if r > 0.9:
-            lam = _wavelength(energy)
             d = 2.0 * lam / (np.pi * (ctf_cutoff * 1e-3) ** 2)   # defocus step giving ~1 rad at the edge
             ens = [float(-d * rng.uniform(0.5, 3)), float(d * rng.uniform(0.2, 2)), float(d * rng.uniform(2.1, 4))][
                   : int(rng.integers(2, 4))]
@@ -131,17 +139,24 @@ def gen(rng, tier):
     route = str(rng.choice(routes))
     if route == "smatrix-scan" and det == "none":
         det = "flexible"
+    scan = _rand_scan(rng)
+    if scan["kind"] == "grid-default":
+        # the default scan is matched to the Nyquist sampling of the S-matrix cutoff / of the probe cutoff: only the
+        # same scan when the two cut-offs agree
+        ctf_cutoff = cutoff
+    if scan["kind"] == "grid-default" and mode == "window":
+        scan = {"kind": "grid", "start": [0.0, 0.0], "end": [1.0, 1.0], "gpts": [3, 2], "endpoint": False}
     return {
         "mode": mode, "energy": energy, "cell": cell, "potential": potential, "gpts": [int(g) for g in gpts],
         "interpolation": interp, "cutoff": cutoff, "ctf_cutoff": ctf_cutoff, "aberrations": ab, "defocus_ensemble": ens,
         "downsample": "cutoff" if rng.random() < 0.5 else False,
-        "scan": _rand_scan(rng), "detector": det, "route": route, "lazy": bool(rng.random() < 0.5),
+        "scan": scan, "detector": det, "route": route, "lazy": bool(rng.random() < 0.5),
         "max_batch_reduction": [1, 3, "auto"][int(rng.integers(0, 3))],
         "max_batch_multislice": ["auto", 5][int(rng.integers(0, 2))],
         "disable_chunks": bool(rng.random() < 0.5),
+        "chunk_size": ["128 MB", "48 KiB"][int(rng.integers(0, 2))],
         "slice_thickness": float(rng.uniform(0.7, 2.0)),
         "num_configs": int(rng.integers(2, 4)), "fp_seed": int(rng.integers(0, 1000)),
-        "ctf_as": str(rng.choice(["object", "object", "dict"])),
     }
 
 
@@ -154,8 +169,8 @@ def fixed_cases(tier):
             "aberrations": {"C10": 80.0, "C30": -2e5, "C12": 30.0, "phi12": 0.7}, "defocus_ensemble": None,
             "downsample": False, "scan": {"kind": "custom", "points": [[0.24, 0.55], [0.0, 0.0], [0.98, 0.98]]},
             "detector": "none", "route": "build-reduce", "lazy": False, "max_batch_reduction": "auto",
-            "max_batch_multislice": "auto", "disable_chunks": False, "slice_thickness": 1.0, "num_configs": 2,
-            "fp_seed": 3, "ctf_as": "object"}
+            "max_batch_multislice": "auto", "disable_chunks": False, "chunk_size": "128 MB", "slice_thickness": 1.0,
+            "num_configs": 2, "fp_seed": 3}
     out = [dict(base)]
     out.append(dict(base, detector="flexible", route="smatrix-scan", lazy=True, downsample="cutoff"))
     out.append(dict(base, potential="frozen", detector="annular", route="smatrix-reduce", lazy=True, disable_chunks=True))
@@ -192,8 +207,6 @@ def _aberr_kwargs(case):
 def _ctf(case):
     import abtem
     ab = _aberr_kwargs(case)
-    if case["ctf_as"] == "dict" and case["ctf_cutoff"] == case["cutoff"]:
-        return dict(ab)       # SMatrix.reduce accepts a dict of aberrations... only via dummy_probes; see _run
     return abtem.CTF(semiangle_cutoff=case["ctf_cutoff"], energy=case["energy"], **ab)
 
 
@@ -306,6 +319,12 @@ def _central(a, shape):
 
 # --------------------------------------------------------------------------- check
 def check(ctx, case):
+    import abtem
+    with abtem.config.set({"diagnostics.progress_bar": False, "dask.chunk-size": case["chunk_size"]}):
+        _check(ctx, case)
+
+
+def _check(ctx, case):
     import abtem
     from abtem.prism.s_matrix import SMatrixArray
 
@@ -476,7 +495,6 @@ def _check_window(ctx, case, atoms, extent, gpts, f, detectors, got_list, pre):
         r = det.detect(ref_waves)
         ra = G.to_numpy(r)
         ga = G.to_numpy(g)
-        ctx.expect(type(g) is type(r), "measurement:type", got=type(g).__name__, want=type(r).__name__)
         if ga.size != ra.size and isinstance(r, abtem.measurements.DiffractionPatterns):
             tail = (min(ga.shape[-2], ra.shape[-2]), min(ga.shape[-1], ra.shape[-1]))
             ga = _central(ga, tail)
